@@ -136,11 +136,11 @@ theorem roman_post_eq (k : Nat) (r : List Text) :
 /-- `format_int_roman` assembled from the translated pieces = the hand model, for EVERY integer. -/
 theorem genFormatIntRoman_eq (v : Int) : genFormatIntRoman v = formatIntRoman v := by
   unfold genFormatIntRoman formatIntRoman format_int_roman_pre
-  by_cases h : 0 < v
+  by_cases h : 0 < v ∧ v < ROMAN_MAX
   · have hv : v = (v.toNat : Int) := by omega
     have hw := romanWhile_eq 3 (v.toNat % 1000) 0 []
     simp only [Int.natCast_zero] at hw
-    simp only [gt_iff_lt, h, decide_true, if_true]
+    simp only [h.1, h.2, decide_true, Bool.and_self, and_self, if_true]
     rw [hv, roman_init_eq]
     simp only [liftErr_ok, hw, Int.toNat_natCast]
     cases romanLoop 3 (v.toNat % 1000) 0 [] with
@@ -148,7 +148,12 @@ theorem genFormatIntRoman_eq (v : Int) : genFormatIntRoman v = formatIntRoman v 
     | ok r' =>
       simp only [roman_post_eq]
       rfl
-  · simp [h]
+  · have : (decide (0 < v) && decide (v < ROMAN_MAX)) = false := by
+      by_cases h0 : 0 < v
+      · have : ¬ v < ROMAN_MAX := fun hm => h ⟨h0, hm⟩
+        simp [h0, this]
+      · simp [h0]
+    simp [h, this]
 
 /-! ### letters -/
 
